@@ -151,6 +151,96 @@ def run(overlay, names, timeout_s, jobs, mem_gb, log_path, extra_args=()):
     return results, None, shown
 
 
+CBMC_FLAGS = ["--no-malloc-may-fail", "--no-undefined-shift-check", "--no-signed-overflow-check", "--nan-check",
+              "--no-self-loops-to-assumptions", "--no-pointer-primitive-check", "--object-bits", "16", "--sat-solver", "cadical",
+              "--slice-formula"]
+ANY_RE = re.compile(r"goto_symex\$\$return_value\$\$\S*any_raw_(?:internal|array)\S*?(\[\d+\])?=.*\(([01 ]+)\)\s*$")
+
+
+def cbmc_assignment(overlay, name, reasons, timeout_s, mem_gb, log_path):
+    """The solver's assignment to every kani::any() of a failing harness, read from CBMC's own text trace
+    (`cbmc --trace --compact-trace` on the goto binary Kani built, same flags Kani uses).  Kani's concrete playback
+    parses CBMC's JSON trace in memory and ran the driver out of memory on the larger harnesses; the text trace is
+    streamed.  Returns [{kind, check, test}] like concrete_playback()."""
+    out_json = os.path.join(overlay, "kani-results.json")
+    try:
+        with open(out_json) as fh:
+            proj = json.load(fh)["project"]
+        outdir = proj["output_dir"]
+        meta = [f for f in os.listdir(outdir) if f.endswith(".kani-metadata.json")]
+        h = None
+        for mf in meta:
+            with open(os.path.join(outdir, mf)) as fh:
+                for x in json.load(fh).get("proof_harnesses", []):
+                    if x["pretty_name"].split("::")[-1] == name.split("::")[-1]:
+                        h = x
+        if h is None:
+            return []
+        binf = h["goto_file"].replace(".symtab.out", ".out")
+        if not os.path.exists(binf):
+            return []
+    except (OSError, KeyError, ValueError):
+        return []
+    cmd = ["cbmc"] + CBMC_FLAGS
+    uw = (h.get("attributes") or {}).get("unwind_value")
+    if uw:
+        cmd += ["--unwind", str(uw)]
+    cmd += [binf, "--trace", "--compact-trace"]
+    env = _env()
+    env["PATH"] = os.path.expanduser("~/.kani/kani-0.68.0/bin") + os.pathsep + env.get("PATH", "")
+    lim = int(mem_gb * (1 << 30))
+
+    def pre():
+        resource.setrlimit(resource.RLIMIT_AS, (lim, lim))
+
+    short = name.split("::")[-1]
+    want = [r.split(" [")[0].strip().strip('"') for r in reasons if r]
+    sections = []      # (property name, [byte vectors], description text)
+    cur = None
+    t0 = time.time()
+    with open(log_path, "w") as log:
+        p = subprocess.Popen(cmd, stdout=subprocess.PIPE, stderr=subprocess.STDOUT, text=True, errors="replace", env=env, preexec_fn=pre)
+        try:
+            for line in p.stdout:
+                if time.time() - t0 > timeout_s:
+                    p.kill()
+                    break
+                if line.startswith("Trace for "):
+                    cur = [line[len("Trace for "):].strip().rstrip(":"), [], ""]
+                    sections.append(cur)
+                    continue
+                if cur is None:
+                    continue
+                m = ANY_RE.search(line)
+                if m:
+                    bits = m.group(2).replace(" ", "")
+                    by = [int(bits[i:i + 8], 2) for i in range(0, len(bits), 8)]
+                    by.reverse()
+                    cur[1].append(by)
+                elif "KANI_CHECK_ID" in line and '"' in line:
+                    cur[2] += line.strip() + " "
+            p.wait()
+        finally:
+            if p.poll() is None:
+                p.kill()
+        log.write("cbmc text-trace extraction for %s: %d trace sections\n" % (short, len(sections)))
+    cand = [s for s in sections if ".reachability_check." not in s[0] and ".cover." not in s[0]]
+    chosen = None
+    for s_ in cand:
+        if any(w and w in s_[2] for w in want):
+            chosen = s_
+            break
+    if chosen is None and cand:
+        chosen = cand[0]
+    if chosen is None:
+        return []
+    vals = ",\n".join("        vec![%s]" % ", ".join(str(b) for b in v) for v in chosen[1])
+    tname = "kani_concrete_playback_%s_cbmc" % short
+    test = ("#[test]\nfn %s() {\n    let concrete_vals: Vec<Vec<u8>> = vec![\n%s\n    ];\n"
+            "    kani::concrete_playback_run(concrete_vals, %s);\n}" % (tname, vals, short))
+    return [{"kind": "assertion", "check": chosen[2].strip() or chosen[0], "test": test}]
+
+
 PLAYBACK_RE = re.compile(r"```\s*\n(.*?)```", re.S)
 
 
